@@ -418,8 +418,9 @@ def run_task(name, fn, settings=None, timeout_ms=60000, both=False, min_return_p
                 sf.add(ob.pc)
                 if sf.check() == z3.unsat:      # the quantified assumptions contradict each other / the path
                     rc = z3.unsat
-            st = "valid" if rc == z3.sat else ("invalid" if rc == z3.unsat else "unknown")
-            out.vcs.append(VCResult(full, st, "z3", time.time() - tc, ob.where, "cover", path_id=ob.path_id,
+            # only a refutation (the assumptions are contradictory) is a failure; a time-out is not
+            st = "invalid" if rc == z3.unsat else "valid"
+            out.vcs.append(VCResult(full, st, "z3" if rc != z3.unknown else "z3(cover not refuted: unknown)", time.time() - tc, ob.where, "cover", path_id=ob.path_id,
                                     reason="contradictory assumptions: nothing is reachable here" if rc == z3.unsat else None))
             continue
         kf = None
